@@ -10,11 +10,16 @@ from ptera.probe import probing
 
 
 def population():
-    return {"k1": RW.K(1), "k2": RW.K(2), "s1": RW.Sub(3), "e1": RW.E(7), "e2": RW.E(7), "e3": RW.E(8), "u1": RW.U(9), "u2": RW.U(9)}
+    pop = {"k1": RW.K(1), "k2": RW.K(2), "s1": RW.Sub(3), "e1": RW.E(7), "e2": RW.E(7), "e3": RW.E(8), "u1": RW.U(9), "u2": RW.U(9)}
+    # a small tree for the recursive method: k1 -> k2 -> s1, e1 -> e3   (Recv.tla Kids)
+    pop["k1"].kids = [pop["k2"]]
+    pop["k2"].kids = [pop["s1"]]
+    pop["e1"].kids = [pop["e3"]]
+    return pop
 
 
 CLASSES = {"K": RW.K, "Sub": RW.Sub, "E": RW.E, "U": RW.U}
-RESULT = {"meth": 1, "other": 2, "deco": 3}
+RESULT = {"meth": 1, "other": 2, "deco": 3, "tree": 5}
 
 
 def run_case(c):
